@@ -6,6 +6,8 @@ From ArmV Require Import Lib.PyZ Lib.Monad Lib.Machine Spec.Pseudocode Spec.Arch
   Proofs.StateLemmas Proofs.CondProofs Proofs.GuardProofs Proofs.BankProofs Proofs.MachineOps Proofs.CoprocProofs.
 From Gen Require Import enums bits_ops core exec.
 Open Scope Z_scope.
+(* a sentence that runs this long no longer matches the code it was written for: fail instead of searching *)
+Set Default Timeout 240.
 
 Definition coproc_outcome (cfg : config) (cp : Z) (s : machine) : outcome machine unit :=
   if coproc_denied (truthy (cfg_have_security_ext cfg)) (IsSecure (sysctx_of cfg s) (cpsr_of s)) (mode_of s =? 16)
